@@ -59,7 +59,7 @@ struct Config
   uint32_t pct_depth = 2;       // PCT: number of priority change points
   uint64_t pct_horizon = 20000; // PCT: change points are drawn in [0, horizon) steps
   uint32_t delta_ns = 7;        // mean virtual ns added per yield point (>=1)
-  uint64_t budget_random = 400000; // S1: steps under the random policy
+  uint64_t budget_random = 150000; // S1: steps under the random policy
   uint64_t budget_fair = 1500000;  // S2: steps under the fair policy (liveness verdicts only here)
   uint32_t spurious_cv_permille = 0; // F10: chance that a condvar wait returns spuriously
   uint64_t epoch_ns = 1700000000ull * 1000000000ull; // CLOCK_REALTIME at virtual time 0
